@@ -6,7 +6,6 @@ From Coq Require Import Permutation Sorted.
 From V.model Require Import Base RelLex RelParse RelAcc RelGrammar RelWrap RelWrapSpec.
 From V.model Require DebVersion Sat.
 From V.proofs Require Import BaseP DebVersionP SatP RelGrammarLexP RelGrammarParseP RelGrammarAccP RelWrapSortP RelWrapP.
-Set Default Timeout 60.
 
 (* ------------------------------------------------------------------ decimal numerals: the two readers
    (RelAcc.uint_of_digits via Coq's Decimal, DebVersion.num_of_digits) and the printer Sat.show_dec *)
